@@ -331,9 +331,22 @@ type redirRec struct {
 	enqMark int // number of EnqueueOutFrag calls recorded when the reply was given
 }
 
+// fail records an oracle verdict: at most two per property (a verdict that repeats after every event must not
+// crowd out what another property's oracle has to say at the end of the trace), twelve in all
 func (r *simRun) fail(format string, a ...interface{}) {
-	if len(r.fails) < 6 {
-		r.fails = append(r.fails, fmt.Sprintf(format, a...))
+	msg := fmt.Sprintf(format, a...)
+	pid := msg
+	if k := strings.Index(msg, ":"); k > 0 {
+		pid = msg[:k]
+	}
+	n := 0
+	for _, f := range r.fails {
+		if strings.HasPrefix(f, pid+":") {
+			n++
+		}
+	}
+	if n < 2 && len(r.fails) < 12 {
+		r.fails = append(r.fails, msg)
 	}
 }
 
@@ -1409,9 +1422,6 @@ func (v *simView) run(line string) (out string, oracle string, tags []string, mo
 		if uncut, changed := uncutLine(parts[2]); changed {
 			v2 := &simView{noVariant: true}
 			if _, o2, _, _ := v2.run("sim " + parts[0] + "|" + parts[1] + "|" + uncut); o2 == "" {
-				if len(r.fails) >= 6 {
-					r.fails = r.fails[:5]
-				}
 				r.fail("C08: the same requests are served correctly when every request arrives in one read, and not when they are cut across reads at the points of this trace (%s)", clipStr(r.fails[0], 200))
 			}
 		}
